@@ -399,6 +399,9 @@ def run_cli(ctx, case, faults=True):
     nproc = case['nproc'] if 'nproc' in case \
         else 1 + ctx.choice('n_processors-1', 3)
     args = dict(CLI_DEFAULTS)
+    if case.get('drop_levels'):
+        dl = case['drop_levels']
+        args['drop_level'] = dl[ctx.choice('drop_level', len(dl))]
     args.update(precomputed_path_list=[stats],
                 output_dir=os.path.join(root, 'out'),
                 tmp_dir=os.path.join(root, 'scratch'),
@@ -417,7 +420,8 @@ def run_cli(ctx, case, faults=True):
             'root': root, 'out': out, 'tree': tree, 'route': 'direct',
             'prior': prior, 'clobber': clobber, 'before': before,
             'raised': raised, 'outcome': dict(mpmodel.SCHED.outcome),
-            'nproc': nproc, 'stats': stats}
+            'nproc': nproc, 'stats': stats,
+            'drop_level': args['drop_level']}
 
 
 def check_thresholds(ctx, res):
